@@ -13,6 +13,8 @@ pub fn use_def(
     let mut ud = HashMap::new();
 
     for location in rd.keys() {
+        // the definitions reaching this location before it executes
+        let rd_in = reaching_definitions::reaching_definitions_in(function, &rd, location)?;
         let defs = match location.function_location().apply(function).unwrap() {
             il::RefFunctionLocation::Instruction(_, instruction) => instruction
                 .operation()
@@ -20,7 +22,7 @@ pub fn use_def(
                 .into_iter()
                 .flatten()
                 .fold(LocationSet::new(), |mut defs, scalar_read| {
-                    rd[location].locations().iter().for_each(|rd| {
+                    rd_in.locations().iter().for_each(|rd| {
                         rd.function_location()
                             .apply(function)
                             .unwrap()
@@ -44,7 +46,7 @@ pub fn use_def(
                     condition.scalars().into_iter().fold(
                         LocationSet::new(),
                         |mut defs, scalar_read| {
-                            rd[location].locations().iter().for_each(|rd| {
+                            rd_in.locations().iter().for_each(|rd| {
                                 if let Some(scalars_written) = rd
                                     .function_location()
                                     .apply(function)
